@@ -10,7 +10,6 @@ use async_graphql::runtime::Timer;
 use async_graphql::{Data, Error, Executor, Request, Response, Value as GValue};
 use futures_util::future::BoxFuture;
 use futures_util::stream::{BoxStream, Stream};
-use futures_util::task::noop_waker;
 use serde_json::Value as Json;
 use std::collections::{BTreeMap, BTreeSet};
 use std::future::Future;
@@ -210,6 +209,7 @@ impl Executor for FakeExecutor {
 struct TimerState {
     armed: u64,
     fired: u64,
+    waker: Option<std::task::Waker>,
 }
 #[derive(Clone, Default)]
 struct ManualTimer(Arc<Mutex<TimerState>>);
@@ -226,10 +226,12 @@ impl Timer for ManualTimer {
 }
 impl Future for Delay {
     type Output = ();
-    fn poll(self: Pin<&mut Self>, _: &mut Context<'_>) -> Poll<()> {
-        if self.timer.0.lock().unwrap().fired >= self.generation {
+    fn poll(self: Pin<&mut Self>, cx: &mut Context<'_>) -> Poll<()> {
+        let mut s = self.timer.0.lock().unwrap();
+        if s.fired >= self.generation {
             Poll::Ready(())
         } else {
+            s.waker = Some(cx.waker().clone());
             Poll::Pending
         }
     }
@@ -239,6 +241,10 @@ impl ManualTimer {
         let mut s = self.0.lock().unwrap();
         if s.fired < s.armed {
             s.fired = s.armed;
+            if let Some(w) = s.waker.take() {
+                drop(s);
+                w.wake();
+            }
             true
         } else {
             false
@@ -598,7 +604,18 @@ fn describe(ob: &Obligation) -> String {
 // ---------------------------------------------------------------------------------------------------------
 // session driver
 
+/// the connection task's waker: sets a flag, as an executor's run queue would
+struct WakeFlag(std::sync::atomic::AtomicBool);
+impl futures_util::task::ArcWake for WakeFlag {
+    fn wake_by_ref(a: &Arc<Self>) {
+        a.0.store(true, std::sync::atomic::Ordering::SeqCst);
+    }
+}
+
 struct Session {
+    wake: Arc<WakeFlag>,
+    /// the last poll returned Pending and the waker has not been invoked since
+    parked: bool,
     proto: Proto,
     ws: Pin<Box<dyn Stream<Item = WsMessage>>>,
     client: Chan<(Msg, Vec<u8>)>,
@@ -658,6 +675,8 @@ impl Session {
             })
             .keepalive_timeout(timer.clone(), Duration::from_secs(60));
         Session {
+            wake: Arc::new(WakeFlag(std::sync::atomic::AtomicBool::new(false))),
+            parked: false,
             proto,
             ws: Box::pin(ws),
             client,
@@ -741,19 +760,48 @@ impl Session {
         }
     }
 
+    /// Poll the connection the way an executor does: again right after every item (a consumer loop), after
+    /// `Pending` only once its waker has been invoked. Every event source of the harness (client messages,
+    /// subscription events, gates, the manual timer) wakes the waker it was polled with; so when the task is parked
+    /// and has not been woken, one extra poll must find nothing - an item there means the connection depends on
+    /// being polled by someone else (a lost wake-up: with a real executor it would have stopped making progress).
     fn drain(&mut self) {
-        let w = noop_waker();
+        use std::sync::atomic::Ordering::SeqCst;
+        let w = futures_util::task::waker(self.wake.clone());
         let mut cx = Context::from_waker(&w);
         let mut n = 0;
+        let mut unwoken_probe = self.parked && !self.wake.0.swap(false, SeqCst);
         while !self.out_ended {
             match self.ws.as_mut().poll_next(&mut cx) {
-                Poll::Ready(Some(m)) => self.log.push(Ev::Out(m)),
-                Poll::Ready(None) => {
-                    self.log.push(Ev::OutEnd);
-                    self.out_ended = true;
+                Poll::Ready(item) => {
+                    if unwoken_probe {
+                        self.failure.get_or_insert_with(|| format!("lost wake-up: the connection was pending and its waker had not been invoked, yet polling it again produced {}; an executor would never have polled it", match &item { Some(m) => format!("{:?}", m), None => "the end of the stream".into() }));
+                    }
+                    match item {
+                        Some(m) => self.log.push(Ev::Out(m)),
+                        None => {
+                            self.log.push(Ev::OutEnd);
+                            self.out_ended = true;
+                        }
+                    }
+                    self.parked = false;
                 }
-                Poll::Pending => break,
+                Poll::Pending => {
+                    // woken while being polled (or since): an executor polls again
+                    if self.wake.0.swap(false, SeqCst) {
+                        unwoken_probe = false;
+                        n += 1;
+                        if n > 10_000 {
+                            self.runaway = true;
+                            break;
+                        }
+                        continue;
+                    }
+                    self.parked = true;
+                    break;
+                }
             }
+            unwoken_probe = false;
             n += 1;
             if n > 10_000 {
                 self.runaway = true;
